@@ -31,6 +31,7 @@ theorem gen_queue_flags :
     Gen.Exec.localPushFlags = [false, false, false] ∧ Gen.Exec.ownPopFlags = [true, false] ∧
     Gen.Exec.stealPopFlags = [true, false] ∧ Gen.Exec.balancePopFlags = [true, false] := by decide
 
+set_option maxRecDepth 100000 in
 /-- `stop()`: clear `_running`, join the balance thread, one STOP per worker, join the workers -/
 theorem gen_stop_order :
     Gen.Exec.stmts_stop =
@@ -42,6 +43,7 @@ theorem gen_stop_order :
        "_threads.clear();"] ∧
     Gen.Exec.stmts_dtor = ["stop();"] := by decide
 
+set_option maxRecDepth 100000 in
 /-- the worker loop: own queue, then (optionally) the stealing scan, then the blocking global pop;
 FUNCTION runs, STOP returns, WAKEUP loops -/
 theorem gen_keep_execute :
@@ -51,6 +53,7 @@ theorem gen_keep_execute :
       "caseTaskType::FUNCTION:{task.function();}break;caseTaskType::STOP:{return;}caseTaskType::WAKEUP:{}break;default:(static_cast<void>(0));" := by
   decide
 
+set_option maxRecDepth 100000 in
 /-- `enqueue_task`: local queue only on a thread running in the pool, with capacity > 0 and
 `size() < capacity`; otherwise the global queue -/
 theorem gen_enqueue_task :
@@ -60,6 +63,7 @@ theorem gen_enqueue_task :
        "return0;"] ∧
     Gen.Exec.skel_bq_size = [.load "_next_pop_index" .rlx, .load "_next_push_index" .rlx] := by decide
 
+set_option maxRecDepth 100000 in
 /-- the repaired balance thread pops into a local `Task` and forwards it afterwards (the slot of the
 local queue is released before the possibly blocking global push) — pins the shape fixed by 4e1dfd6 -/
 theorem gen_balance_forwards_after_pop :
@@ -67,6 +71,7 @@ theorem gen_balance_forwards_after_pop :
       ["while(_running.load(::std::memory_order_acquire)){::std::this_thread::sleep_for(_balance_interval);_local_task_queues.for_each([&](TaskQueue*iter,TaskQueue*end){while(iter!=end){auto&queue=*iter++;Tasktask;while(queue.try_pop<true,false>(task)){enqueue_task(::std::move(task));}}});}"] := by
   decide
 
+set_option maxRecDepth 100000 in
 /-- index-level shape of the queue operations the ticket specification Q1–Q5 speaks about -/
 theorem gen_queue_ticket_ops :
     Gen.Exec.skel_bq_try_deal =
@@ -80,6 +85,7 @@ theorem gen_queue_ticket_ops :
       [.rmw "fetch_add" "_next_pop_index" .rlx, .load "_next_pop_index" .rlx,
        .store "_next_pop_index" .rlx, .call "deal"] := by decide
 
+set_option maxRecDepth 100000 in
 /-- the front end's failure branch and the three `invoke`s -/
 theorem gen_front_end :
     Gen.Exec.executeFailAction = "future=Future<R,F>();" ∧
